@@ -717,6 +717,7 @@ func run(c *core.Ctx) {
 		}
 	}
 	c.CheckShards(outs)
+	partPeer(c, root)
 
 	last := hs[len(hs)-1]
 	c.Sample(map[string]interface{}{"last_history": last, "providers": providers, "filters_derived_for_it": len(filtersFor(last))})
@@ -735,6 +736,19 @@ func run(c *core.Ctx) {
 }
 
 func replay(c *core.Ctx, raw json.RawMessage) {
+	var pc peerCase
+	if json.Unmarshal(raw, &pc) == nil && (pc.Part == "peer" || pc.Part == "retained") {
+		restore := quietBadger()
+		defer restore()
+		root, _ := os.MkdirTemp("", "c06-*")
+		defer os.RemoveAll(root)
+		if pc.Part == "peer" {
+			runPeer(c, root, pc)
+		} else {
+			runRetained(c, root, pc)
+		}
+		return
+	}
 	var cs Case
 	if err := json.Unmarshal(raw, &cs); err != nil || len(cs.History) == 0 || len(cs.Query.Ssid) < 2 {
 		c.Violate("replay:bad-case", "cannot decode the replay case", string(raw))
